@@ -591,18 +591,6 @@ def py_fail_c10(case, sq0, sq1, shared, dis):
     code = base()
     if code == 0:
         return 0
-    if sq1 is not None:
-        from pysmiles.smiles_helper import valence
-        for n, d in sq1.nodes(data=True):
-            if 'contraction' in d and d.get('aromatic') and d.get('hcount', 0) > 0:
-                try:
-                    val = valence(d)
-                except ValueError:
-                    continue
-                b2 = sum(int(2 * e.get('order', 1)) for _, _, e in sq1.edges(n, data=True))
-                v = next((x for x in val if b2 <= 2 * x), val[-1] if val else None)
-                if v is not None and 2 * v < b2 + int(2 * d['hcount']):
-                    return 12
     return code
 
 
@@ -622,8 +610,6 @@ class C10(common.Prop):
     thorough_cases = 2500
     extended_cases = 600
     fail_text = {1: 'the overlapping description does not resolve although the disjoint one does',
-                 12: 'the overlapping description raises or resolves to a different molecule (class stale-hcount-aromatic: a merged '
-                     'aromatic atom keeps the hydrogen count of one copy, which pysmiles\' aromaticity correction then reads)',
                  2: 'atoms were merged that are not copies of the same atom (or an atom lost its origin)',
                  3: 'two copies of one atom were not merged',
                  4: 'the number of heavy atoms is not (atoms of all fragments) - (shared pairs)',
@@ -699,7 +685,7 @@ class C10(common.Prop):
 
     def known_class(self, case, impl, code):
         """the class predicates are evaluated in Coq (SquashCheck.raise_code) and arrive as the code"""
-        return {12: 'stale-hcount-aromatic'}.get(code)
+        return None        # no open defect class (all three repaired in /repo)
 
     def coq_case(self, case, impl):
         if 'skip' in impl:
